@@ -48,8 +48,10 @@ def inst_has_dict(prog, i) -> bool:
     when certain.  Non-field instance state (__post_init__ extras, cached_property) is only generated then, because
     without a __dict__ it cannot exist at all -- that is what slots mean, not a difference the property is about."""
     s = prog[i]
-    if not s["slot"] or not s["dataclass"]:
-        return True                      # never slotted (a failed decoration leaves the plain class)
+    if not s["slot"]:
+        return True                      # never slotted
+    if not s["dataclass"] and _dc_root(prog, i) is None:
+        return True                      # not a dataclass at all: the decoration fails and leaves the plain class
     if s.get("reslot"):
         return False
     if s["dict"] and not s["bare"]:
